@@ -1306,9 +1306,11 @@ fn longdiv_ref(seed: u64) -> serde_json::Value {
             let ma: u128 = (1u128 << wa) - 1; let mb: u128 = (1u128 << wb) - 1;
             let mut av: Vec<u64> = vec![0, 1, 2, ma as u64, (ma / 2) as u64, (ma / 2 + 1) as u64, 300 & ma as u64, 1000 & ma as u64, 40000 & ma as u64];
             let mut bv: Vec<u64> = vec![1, 2, 3, mb as u64, (mb / 2) as u64, (mb / 2 + 1) as u64, (mb / 2 + 2) as u64, 200 & mb as u64, 129 & mb as u64];
+            if let Ok(cs) = std::env::var("LD_CASE") { let p: Vec<u64> = cs.split(',').map(|x| x.parse().unwrap()).collect(); av = vec![p[0]; 2]; bv = vec![p[1]; 2]; } // developer aid
             while av.len() < n { av.push((rng.next() as u128 & ma) as u64 >> (rng.next() % wa as u64)); }
             while bv.len() < n { let b = (rng.next() as u128 & mb) as u64 >> (rng.next() % wb as u64); bv.push(if b == 0 { 1 } else { b }); }
             while bv.len() > av.len() { bv.pop(); } while av.len() > bv.len() { av.pop(); }
+            if std::env::var("LD_CASE").is_ok() { av.truncate(2); bv.truncate(2); }
             let n = av.len() as u64;
             let r = catch_unwind(AssertUnwindSafe(|| -> Result<(Vec<u64>, Vec<u64>)> {
                 let c = simple_context(|g| { let x = g.input(array_type(vec![n], ta))?; let y = g.input(array_type(vec![n], tb))?;
@@ -1330,6 +1332,7 @@ fn longdiv_ref(seed: u64) -> serde_json::Value {
                 let (gq, gr) = (sx(q[i], wa), sx(rm[i], wb));
                 // the quotient may not fit the dividend's width only for MIN / -1; skip that one documented overflow
                 if signed && a == -(1i128 << (wa - 1)) && b == -1 { continue; }
+                if std::env::var("LD_CASE").is_ok() { eprintln!("signed={} {}b/{}b: {} / {} -> q={} r={} (expected {} {})", signed, wa, wb, a, b, gq, gr, fq, fr); continue; }
                 if gq != fq || gr != fr {
                     return json!({"found": true, "routine": "longdiv_ref", "property": "C17", "input": {"signed": signed, "dividend_bits": wa, "divisor_bits": wb, "dividend": a.to_string(), "divisor": b.to_string()},
                         "expected": {"quotient": fq.to_string(), "remainder": fr.to_string()}, "observed": {"quotient": gq.to_string(), "remainder": gr.to_string()},
